@@ -23,6 +23,7 @@ import (
 	"github.com/nspcc-dev/neo-go/pkg/interop/iterator"
 	"github.com/nspcc-dev/neo-go/pkg/interop/native/gas"
 	"github.com/nspcc-dev/neo-go/pkg/interop/native/management"
+	"github.com/nspcc-dev/neo-go/pkg/interop/native/oracle"
 	"github.com/nspcc-dev/neo-go/pkg/interop/runtime"
 	"github.com/nspcc-dev/neo-go/pkg/interop/storage"
 )
@@ -77,6 +78,33 @@ func OnNEP17Payment(from interop.Hash160, amount int, data any) {
 	tag := d[0].(int)
 	if tag == 1 {
 		panic("payment refused")
+	}
+	if tag == 2 {
+		Run(d[1].([]any))
+	}
+}
+
+// AskOracle files an oracle request whose callback is OracleCB.
+func AskOracle(url string, filter []byte, userData any, gasForResponse int) {
+	oracle.Request(url, filter, "oracleCB", userData, gasForResponse)
+}
+
+// OracleCB is the oracle callback. It records the answer; user data [1]
+// makes it throw, [2, plan] runs a plan.
+func OracleCB(url string, userData any, code int, result []byte) {
+	if string(runtime.GetCallingScriptHash()) != oracle.Hash {
+		panic("not the oracle")
+	}
+	ctx := storage.GetContext()
+	storage.Put(ctx, []byte("oracle"), result)
+	storage.Put(ctx, []byte("oracle-code"), code)
+	if userData == nil {
+		return
+	}
+	d := userData.([]any)
+	tag := d[0].(int)
+	if tag == 1 {
+		panic("answer refused")
 	}
 	if tag == 2 {
 		Run(d[1].([]any))
